@@ -125,15 +125,15 @@ func (s *StreamScenario) runOps(rw varlink.ReadWriterContext, base context.Conte
 			dctx = sim.NewCtx(0)
 			ctx = dctx
 		case "deadline":
-			sim.Rec("ctx.deadline", fmt.Sprintf(`{"i":%d,"us":%d}`, i, op.Ctx.Us))
+			sim.Rec("ctx.deadline", sf(`{"i":%d,"us":%d}`, i, op.Ctx.Us))
 			dctx = sim.NewCtx(time.Duration(op.Ctx.Us) * time.Microsecond)
 			ctx = dctx
 		}
 		if op.Ctx.Mode == "precancel" {
-			sim.Rec("cancel.fire", fmt.Sprint(i))
+			sim.Rec("cancel.fire", sp(i))
 			dctx.Cancel()
 		}
-		sim.Rec("op.start", fmt.Sprint(i))
+		sim.Rec("op.start", sp(i))
 		if op.Ctx.Mode == "cancel" || op.Ctx.Mode == "servecancel" {
 			i, op, dctx := i, op, dctx
 			sim.Go("canceller", func() {
@@ -141,7 +141,7 @@ func (s *StreamScenario) runOps(rw varlink.ReadWriterContext, base context.Conte
 				if op.Ctx.Us > 0 {
 					sim.Sleep(time.Duration(op.Ctx.Us) * time.Microsecond)
 				}
-				sim.Rec("cancel.fire", fmt.Sprint(i))
+				sim.Rec("cancel.fire", sp(i))
 				if op.Ctx.Mode == "servecancel" {
 					if serveCancel != nil {
 						serveCancel()
@@ -232,19 +232,19 @@ func (s *StreamScenario) peerTask(ep *sim.Endpoint, eatFirst bool) {
 			if n == 0 {
 				continue
 			}
-			sim.Rec("peer.write.start", fmt.Sprint(off))
+			sim.Rec("peer.write.start", sp(off))
 			_, err := ep.Write(all[off : off+n])
 			off += n
-			sim.Rec("peer.write", fmt.Sprintf(`{"end":%d,"err":%q}`, off, errStr(err)))
+			sim.Rec("peer.write", sf(`{"end":%d,"err":%q}`, off, errStr(err)))
 			if err != nil {
 				return
 			}
 		}
 	}
 	if off < len(all) {
-		sim.Rec("peer.write.start", fmt.Sprint(off))
+		sim.Rec("peer.write.start", sp(off))
 		_, err := ep.Write(all[off:])
-		sim.Rec("peer.write", fmt.Sprintf(`{"end":%d,"err":%q}`, len(all), errStr(err)))
+		sim.Rec("peer.write", sf(`{"end":%d,"err":%q}`, len(all), errStr(err)))
 	}
 	sim.Rec("peer.done", "")
 	sim.Await(sim.Cond{Kind: sim.CondQuiescent})
@@ -608,7 +608,7 @@ func (s *StreamScenario) describeMismatch(ops []opObs) string {
 		if o.res.Err != "nil" {
 			st = o.res.Err
 		} else if !bytes.Equal(want, o.res.Data) {
-			st = fmt.Sprintf("MISMATCH at stream position %d: got %q want %q", pos, abbreviate(string(o.res.Data), 24), abbreviate(string(want), 24))
+			st = sf("MISMATCH at stream position %d: got %q want %q", pos, abbreviate(string(o.res.Data), 24), abbreviate(string(want), 24))
 		}
 		fmt.Fprintf(&b, "[op %d %s n=%d %s] ", i, op.Kind, o.res.N, st)
 		if o.res.Err == "nil" {
@@ -781,7 +781,7 @@ func genStreamBytes(g *Gen, parts int, maxRun int) []byte {
 			n := 1 + g.IntN(3)
 			for i := 0; i < n; i++ {
 				ctr++
-				b = append(b, fmt.Sprintf(`{"parameters":{"i":%d,"pad":%s}}`, ctr, quote(g.BigString(g.IntN(40))))...)
+				b = append(b, sf(`{"parameters":{"i":%d,"pad":%s}}`, ctr, quote(g.BigString(g.IntN(40))))...)
 				b = append(b, 0)
 			}
 		} else {
@@ -892,9 +892,9 @@ func genC17(seed uint64, tier string) Scenario {
 		case 1:
 			s.Peer = append(s.Peer, PeerAct{Op: "sleep", Us: 1 + g.IntN(3000)})
 		case 2:
-			s.Peer = append(s.Peer, PeerAct{Op: "await", Trigger: fmt.Sprintf("ev:op.done:%d", 1+g.IntN(6))})
+			s.Peer = append(s.Peer, PeerAct{Op: "await", Trigger: sf("ev:op.done:%d", 1+g.IntN(6))})
 		default:
-			s.Peer = append(s.Peer, PeerAct{Op: "await", Trigger: fmt.Sprintf("ev:cancel.fire:%d", 1+g.IntN(2))}, PeerAct{Op: "sleep", Us: g.IntN(10)})
+			s.Peer = append(s.Peer, PeerAct{Op: "await", Trigger: sf("ev:cancel.fire:%d", 1+g.IntN(2))}, PeerAct{Op: "sleep", Us: g.IntN(10)})
 		}
 	}
 	nOps := 2 + g.IntN(8)
@@ -925,7 +925,7 @@ func genC17(seed uint64, tier string) Scenario {
 					op.Ctx.Us = 0
 				}
 				if g.Pct(25) {
-					op.Ctx.Trigger = fmt.Sprintf("ev:peer.write:%d", 1+g.IntN(4))
+					op.Ctx.Trigger = sf("ev:peer.write:%d", 1+g.IntN(4))
 					op.Ctx.Us = g.IntN(3)
 				}
 			case 3, 4:
